@@ -39,9 +39,14 @@ type op struct {
 	Mode string `json:"mode,omitempty"`
 	Via  string `json:"via,omitempty"` // overwrite: create|update
 	N    int    `json:"n,omitempty"`
+	// Fault: a store method (update, insert, delete, kvput, deleteFolderChildren) whose next call is
+	// made to fail through the counting store, so that the request is refused half-way
+	Fault string `json:"fault,omitempty"`
 }
 
-func (o op) short() string { return o.Kind + ":" + o.A + ">" + o.B + ":" + o.Mode + ":" + o.Via }
+func (o op) short() string {
+	return o.Kind + ":" + o.A + ">" + o.B + ":" + o.Mode + ":" + o.Via + ":" + o.Fault
+}
 
 var universe = []string{"/d", "/e", "/u", "/d/f1", "/d/f2", "/e/f3", "/e/f4", "/d/s", "/d/s/f5", "/u/p1", "/u/p2", "/e/d", "/e/d/f1", "/e/d/f2", "/e/d/s", "/e/d/s/f5", "/e/s", "/e/s/f5"}
 
@@ -151,7 +156,16 @@ func kindOfTarget(d *lib.TreeDump, p string) string {
 		return "dir"
 	case len(e.HardLinkId) == 0:
 		return "plain"
-	case e.HardLinkCounter <= 1:
+	}
+	// by the names that actually exist (the stored counter may be off after a listed finding
+	// or after a request that a store fault stopped half-way)
+	names := 0
+	for _, c := range d.Found {
+		if !c.IsDirectory() && string(c.HardLinkId) == string(e.HardLinkId) {
+			names++
+		}
+	}
+	if names <= 1 {
 		return "hardlink-last"
 	}
 	return "hardlink"
@@ -166,8 +180,25 @@ func (w *world) rpc(label string, o op, target string, requested bool, fn func()
 		return false
 	}
 	_ = w.takeObserved()
+	if o.Fault != "" {
+		w.fw.Store.InjectFault(o.Fault, 1)
+	}
 	errText := fn()
+	if o.Fault != "" {
+		if w.fw.Store.ClearFaults() > 0 {
+			r.Count("rpcs_with_injected_store_fault", 1)
+		}
+	}
 	hits := w.takeObserved()
+	if errText != "" {
+		r.Count("rpcs_refused", 1)
+		if len(w.before) > 0 {
+			r.Count("rpcs_refused_while_chunks_referenced", 1)
+		}
+		// a refused request need not dispose of anything (clause 2 is about requests that take
+		// effect); clause 1 holds for it like for every other request
+		requested = false
+	}
 	d := w.fw.Dump(universe)
 	after := w.references(d)
 	r.Eval(1)
@@ -219,6 +250,12 @@ func (w *world) rpc(label string, o op, target string, requested bool, fn func()
 		sig := lib.Sig{"op": label, "class": "referenced-chunk-deleted", "sink": deleted[id], "target": t, "survivor": survivor, "via": via, "cause": cause}
 		if o.Mode != "" {
 			sig["mode"] = o.Mode
+		}
+		if errText != "" {
+			sig["outcome"] = "refused"
+			if o.Fault != "" {
+				sig["fault"] = o.Fault
+			}
 		}
 		if reported[sig.String()] {
 			continue
@@ -339,6 +376,27 @@ func (w *world) step(o op) bool {
 		}
 		e := &filer_pb.Entry{Name: nameOf(o.A), Attributes: fileAttrs(total(chunks), int64(1600000000+w.seq)), Chunks: chunks}
 		return w.rpc("create-new", o, o.A, true, func() string { return w.createRPC(parentOf(o.A), e) })
+	case "mkdir-over-file":
+		// a type-confused create: a directory at the path of an existing file (must be refused)
+		if !isFile(o.A) {
+			return skip()
+		}
+		e := &filer_pb.Entry{Name: nameOf(o.A), IsDirectory: true, Attributes: &filer_pb.FuseAttributes{Mtime: 1600000000, Crtime: 1600000000, FileMode: uint32(os.ModeDir) | 0755, Uid: 1000, Gid: 1000}}
+		return w.rpc("create-dir-over-file", o, o.A, true, func() string { return w.createRPC(parentOf(o.A), e) })
+	case "create-excl":
+		// O_EXCL create of an existing file with fresh chunks (must be refused, EEXIST)
+		if !isFile(o.A) {
+			return skip()
+		}
+		chunks := []*filer_pb.FileChunk{w.dataChunk(0, 9)}
+		e := &filer_pb.Entry{Name: nameOf(o.A), Attributes: fileAttrs(9, int64(1600000000+w.seq)), Chunks: chunks}
+		return w.rpc("create-excl", o, o.A, true, func() string {
+			resp, err := w.fw.FS.CreateEntry(context.Background(), &filer_pb.CreateEntryRequest{Directory: parentOf(o.A), Entry: e, OExcl: true})
+			if err != nil {
+				return err.Error()
+			}
+			return resp.Error
+		})
 	case "overwrite":
 		if !isFile(o.A) {
 			return skip()
@@ -625,6 +683,13 @@ func alphabet() []op {
 		{Kind: "delete", A: "/e/f3", Mode: "mount"},
 		{Kind: "mkparts"},
 		{Kind: "adopt", A: "/d/f1"},
+		// refused requests: type conflict, O_EXCL, store errors half-way
+		{Kind: "mkdir-over-file", A: "/d/f1"},
+		{Kind: "create-excl", A: "/d/f1"},
+		{Kind: "overwrite", A: "/d/f1", Mode: "replace", Via: "create", Fault: "update"},
+		{Kind: "overwrite", A: "/d/f1", Mode: "keep-append", Via: "update", Fault: "update"},
+		{Kind: "overwrite", A: "/d/f2", Mode: "replace", Via: "create", Fault: "kvput"},
+		{Kind: "delete", A: "/d/f1", Mode: "data", Fault: "delete"},
 	}
 }
 
@@ -644,6 +709,26 @@ func randomOp(rng *rand.Rand, w *world) op {
 			return pickFile()
 		}
 		return exFiles[rng.Intn(len(exFiles))]
+	}
+	faults := []string{"update", "update", "insert", "delete", "kvput", "deleteFolderChildren"}
+	if rng.Intn(12) == 0 {
+		// a request refused half-way or up front
+		switch rng.Intn(5) {
+		case 0:
+			return op{Kind: "mkdir-over-file", A: exFile()}
+		case 1:
+			return op{Kind: "create-excl", A: exFile()}
+		case 2:
+			p := exFile()
+			if len(exAll) > 0 && rng.Intn(3) == 0 {
+				p = exAll[rng.Intn(len(exAll))]
+			}
+			return op{Kind: "delete", A: p, Mode: []string{"data", "mount"}[rng.Intn(2)], Fault: faults[rng.Intn(len(faults))]}
+		case 3:
+			return op{Kind: "append", A: exFile(), N: 1, Fault: faults[rng.Intn(len(faults))]}
+		default:
+			return op{Kind: "overwrite", A: exFile(), Mode: []string{"replace", "keep-append", "drop-one", "cover", "rewrap", "as-plain"}[rng.Intn(6)], Via: []string{"create", "update"}[rng.Intn(2)], Fault: faults[rng.Intn(len(faults))]}
+		}
 	}
 	x := rng.Intn(100)
 	switch {
@@ -760,7 +845,7 @@ func runBatch(r *lib.Run, mode, kind string, shard, nshards, sampleOneIn int) {
 
 func main() {
 	r := lib.Start("C20", "exploration")
-	r.SetRule("sequences of create (plain / with manifest chunk / with a covered chunk), overwrite through CreateEntry or UpdateEntry (replace, keep+append, drop one, cover, re-wrap data chunks into a new manifest, replace a hard-linked name by a plain file), AppendToEntry, hard link (UpdateEntry old + CreateEntry new), AtomicRenameEntry of files and directories incl. onto existing files, DeleteEntry with/without data deletion (mount rule counter<=1, recursive for directories), S3-style adoption of part chunks followed by a data-less delete of the parts; on a real Filer over leveldb/leveldb2/leveldb3 with the chunk-deletion hook observing both sinks. Judged after every RPC against the references read back from the live namespace. distinct = distinct (store, op sequence); every sequence starts with a successful create, so all are non-trivial")
+	r.SetRule("sequences of create (plain / with manifest chunk / with a covered chunk), overwrite through CreateEntry or UpdateEntry (replace, keep+append, drop one, cover, re-wrap data chunks into a new manifest, replace a hard-linked name by a plain file), AppendToEntry, hard link (UpdateEntry old + CreateEntry new), AtomicRenameEntry of files and directories incl. onto existing files, DeleteEntry with/without data deletion (mount rule counter<=1, recursive for directories), S3-style adoption of part chunks followed by a data-less delete of the parts, and refused requests (directory created over a file, O_EXCL create of an existing file, overwrites/appends/deletes with one store call made to fail through the counting store); on a real Filer over leveldb/leveldb2/leveldb3 with the chunk-deletion hook observing both sinks. Judged after every RPC against the references read back from the live namespace. distinct = distinct (store, op sequence); every sequence starts with a successful create, so all are non-trivial")
 	r.Assume("referenced = reachable from an entry that FindEntry shows (hard links resolved through the KV record), manifests expanded from the blobs the harness blob server holds")
 	r.Assume("requests that 'request data deletion': DeleteEntry with IsDeleteData=true and every request that replaces the chunk list of an existing file (CreateEntry/UpdateEntry/AppendToEntry, rename onto an existing file; a rename to a free name does not); DeleteEntry with IsDeleteData=false only has clause 1 checked")
 	r.Assume("clients never construct two plain entries that share a chunk except the way S3 CompleteMultipartUpload does (adopt, then remove the parts without data deletion), and never un-wrap or nest manifests: the filer has no chunk reference counts by design")
@@ -804,10 +889,10 @@ func main() {
 	var jobs []job
 	exhShards := r.Pick(2, 6)
 	for s := 0; s < exhShards; s++ {
-		jobs = append(jobs, job{fmt.Sprintf("exh-leveldb-%d", s), []string{"exh", "leveldb", fmt.Sprint(s), fmt.Sprint(exhShards), fmt.Sprint(r.Pick(6, 20))}})
+		jobs = append(jobs, job{fmt.Sprintf("exh-leveldb-%d", s), []string{"exh", "leveldb", fmt.Sprint(s), fmt.Sprint(exhShards), fmt.Sprint(r.Pick(10, 30))}})
 	}
 	for _, k := range []string{"leveldb2", "leveldb3"} {
-		jobs = append(jobs, job{"exh-" + k, []string{"exh", k, "0", "1", fmt.Sprint(r.Pick(40, 120))}})
+		jobs = append(jobs, job{"exh-" + k, []string{"exh", k, "0", "1", fmt.Sprint(r.Pick(60, 180))}})
 	}
 	for _, k := range lib.FilerStoreKinds {
 		jobs = append(jobs, job{"rand-" + k, []string{"rand", k, "0", "1", "1"}})
@@ -836,6 +921,16 @@ func main() {
 	r.Count("total_rpcs", rpcs)
 	r.Count("total_chunks_unreferenced_by_deleting_rpcs", unref)
 	r.Count("total_manifest_blob_reads_by_filer", blobReads)
+	var refused, faulted int64
+	for _, j := range jobs {
+		refused += r.Counter(j.label + ".rpcs_refused_while_chunks_referenced")
+		faulted += r.Counter(j.label + ".rpcs_with_injected_store_fault")
+	}
+	r.Count("total_rpcs_refused_while_chunks_referenced", refused)
+	r.Count("total_rpcs_with_injected_store_fault", faulted)
+	if refused == 0 || faulted == 0 {
+		r.Inconclusive("no refused request / no injected store fault was observed")
+	}
 	if hits == 0 || unref == 0 || blobReads == 0 {
 		r.Inconclusive("the chunk-deletion hook was never reached, no chunk ever lost its last reference, or the filer never resolved a manifest")
 	}
